@@ -788,6 +788,12 @@ class Visitor(ast.NodeVisitor):
         assert result is not PLACEHOLDER
 
         self.recomputed_values[node] = result
+
+        if isinstance(result, FirstExceptionInAll):
+            # The trace of the failed quantifier is kept for the violation message.
+            # The enclosing expressions are re-computed with the value which Python computed.
+            return False
+
         if inspect.iscoroutine(result):
             raise ValueError(
                 ("Unexpected coroutine {} as a result from a call. "
